@@ -24,11 +24,13 @@ pub fn eval_c01(st: &State) -> Eval {
     e.sig = sig;
     e.nontrivial = nt;
     let x0 = exact_calls_thread();
+    let mut sig: Vec<f64> = vec![1.0; st.n()];
     // integrator route: volumes, centroids, vertices, complete face lists
     match build_integrator(st, None) {
         Err(p) => panic_issue(&mut e, check, st, &case, &[], &p, "VoronoiIntegrator::build"),
         Ok(integ) => {
             e.impl_runs += 1;
+            sig = sigmas(&integ, st.n());
             let vc = integ.compute_cell_integrals::<VolumeCentroidIntegral>();
             let recs = integ.compute_face_integrals::<FaceRec>();
             let lf = lib_cell_faces(st, &recs, st.n());
@@ -44,6 +46,17 @@ pub fn eval_c01(st: &State) -> Eval {
                     let verts = lib_vertices(cell);
                     let sg = sigma_min(cell);
                     compare_cell_with_oracle(&mut e, check, st, &case, &[], i, &oc[i], &t, vc[i].volume, vc[i].centroid, Some(&lf[i]), Some((&verts, sg)));
+                    // every oracle vertex satisfies every half space the library clipped the cell with
+                    let vt = 10. * pos_for(&t, sg);
+                    'ov: for u in &oc[i].verts {
+                        for (k, hs) in cell.clipping_planes.iter().enumerate() {
+                            let sd = hs.plane.n.dot(*u - hs.plane.p);
+                            if !(sd >= -vt) {
+                                e.issue("oracle-vertex-outside-library-half-space", &case, format!("cell {}: oracle vertex {} lies {:e} outside the library's clipping plane {} (right {:?})", i, fmt_vec(*u), -sd, k, hs.right_idx), replay_text(check, st, &[]));
+                                break 'ov;
+                            }
+                        }
+                    }
                     e.transitions += oc[i].faces.len() as u64;
                 }
             }
@@ -54,7 +67,7 @@ pub fn eval_c01(st: &State) -> Eval {
         Err(p) => panic_issue(&mut e, check, st, &case, &[], &p, "Voronoi::build"),
         Ok(v) => {
             e.impl_runs += 1;
-            compare_voronoi_with_oracle(&mut e, check, st, &case, &[], &v, &oc, &t, None);
+            compare_voronoi_with_oracle(&mut e, check, st, &case, &[], &v, &oc, &t, None, &sig);
         }
     }
     e.exact_calls = exact_calls_thread() - x0;
@@ -75,9 +88,11 @@ pub fn compare_voronoi_with_oracle(
     oc: &[OCell],
     t: &Tol,
     mask: Option<&[bool]>,
+    sig: &[f64],
 ) {
     let rp = || replay_text(check, st, extra);
     let n = st.n();
+    let sall = sigma_all(sig);
     let active = |i: usize| mask.map_or(true, |m| m[i]);
     if v.cells().len() != n {
         e.issue("cell-count", case, format!("{} cells for {} generators", v.cells().len(), n), rp());
@@ -86,7 +101,7 @@ pub fn compare_voronoi_with_oracle(
     for i in 0..n {
         let c = &v.cells()[i];
         if active(i) {
-            compare_cell_with_oracle(e, check, st, case, extra, i, &oc[i], t, c.volume(), c.centroid(), None, None);
+            compare_cell_with_oracle(e, check, st, case, extra, i, &oc[i], t, c.volume(), c.centroid(), None, Some((&[], sig[i])));
         }
     }
     // expected owned faces
@@ -101,7 +116,7 @@ pub fn compare_voronoi_with_oracle(
         if !active(i) {
             continue;
         }
-        let ct = cell_tol(t, &oc[i], 1.0);
+        let ct = cell_tol(t, &oc[i], sall);
         for of in &oc[i].faces {
             if matches!(of.key, FaceKey::Far(_)) || !face_is_active(st.dim, of) {
                 continue;
@@ -154,7 +169,7 @@ pub fn compare_voronoi_with_oracle(
             continue;
         }
         let of = oc[*left].faces.iter().find(|f| f.key == *k);
-        let lim = t.neg_area + cell_tol(t, &oc[*left], 1.0).pos * 4. * t.l.powi((st.dim as i32 - 2).max(0));
+        let lim = t.neg_area + cell_tol(t, &oc[*left], sall).pos * 4. * t.l.powi((st.dim as i32 - 2).max(0));
         let r9 = matches!(k, FaceKey::Wall(w) if wall_through_generator(st, *left, *w, t));
         match of {
             None => {
@@ -190,7 +205,11 @@ pub fn eval_c02(st: &State) -> Eval {
     // tolerance: sum over cells of pos * surface, bounded via box surface * (n+1)
     let w = st.norm_width();
     let surf_box = 2. * (w.x * w.y + w.y * w.z + w.x * w.z);
-    let tol_total = t.pos * surf_box * (st.n() as f64 + 1.) * 4. + 1e-11 * box_measure;
+    let sall = match build_integrator(st, None) {
+        Ok(i) => sigma_all(&sigmas(&i, st.n())),
+        Err(_) => 1.0,
+    };
+    let tol_total = pos_for(&t, sall) * surf_box * (st.n() as f64 + 1.) * 4. + 1e-11 * box_measure;
     let mut h = Fnv::new();
     match build_voronoi(st, None) {
         Err(p) => panic_issue(&mut e, check, st, &case, &[], &p, "Voronoi::build"),
@@ -198,7 +217,9 @@ pub fn eval_c02(st: &State) -> Eval {
             e.impl_runs += 1;
             let mut total = 0.;
             for (i, c) in v.cells().iter().enumerate() {
-                if !(c.volume() > 0.) || !c.volume().is_finite() {
+                // strictly positive, unless the true measure is itself below the rounding floor of the box scale
+                let tiny = oracle_cell(st, i).volume <= 1e-12 * box_measure;
+                if !c.volume().is_finite() || (!tiny && !(c.volume() > 0.)) || (tiny && !(c.volume() >= -1e-13 * box_measure)) {
                     e.issue("cell-measure-not-positive", &case, format!("cell {} has measure {:e}", i, c.volume()), replay_text(check, st, &[]));
                 }
                 total += c.volume();
@@ -222,7 +243,8 @@ pub fn eval_c02(st: &State) -> Eval {
             let vols = integ.compute_cell_integrals::<VolumeIntegral>();
             let mut total = 0.;
             for (i, c) in vols.iter().enumerate() {
-                if !(c.volume > 0.) || !c.volume.is_finite() {
+                let tiny = i < st.n() && oracle_cell(st, i).volume <= 1e-12 * box_measure;
+                if !c.volume.is_finite() || (!tiny && !(c.volume > 0.)) || (tiny && !(c.volume >= -1e-13 * box_measure)) {
                     e.issue("cell-measure-not-positive", &case, format!("cell {} has VolumeIntegral {:e}", i, c.volume), replay_text(check, st, &[]));
                 }
                 total += c.volume;
@@ -257,6 +279,7 @@ pub fn eval_c03(st: &State) -> Eval {
     let case = st.id.clone();
     // pairs (a<b) that share an unshifted face of non-negligible area (as seen by the full integrator)
     let mut shared_pairs: Vec<(usize, usize, f64)> = vec![];
+    let mut sig: Vec<f64> = vec![1.0; n];
     match build_integrator(st, None) {
         Err(p) => panic_issue(&mut e, check, st, &case, &[], &p, "VoronoiIntegrator::build"),
         Ok(integ) => {
@@ -264,6 +287,7 @@ pub fn eval_c03(st: &State) -> Eval {
             let recs = integ.compute_face_integrals::<FaceRec>();
             let lf = lib_cell_faces(st, &recs, n);
             let w = st.norm_width();
+            sig = sigmas(&integ, n);
             let mut flux = DVec3::ZERO;
             let mut flux_scale = 0.;
             for i in 0..n {
@@ -272,7 +296,7 @@ pub fn eval_c03(st: &State) -> Eval {
                     let FaceKey::Ngb(j, s) = *k else { continue };
                     e.transitions += 1;
                     // area scale for tolerances: perimeter unknown -> use L^(d-2) * 4
-                    let pos = t.pos / 1.0;
+                    let pos = pos_for(&t, sig[i].min(sig[j.min(n - 1)]));
                     let atol = pos * 8. * t.l.powi((st.dim as i32 - 2).max(0)) + 1e-9 * r.area.abs();
                     let back = FaceKey::Ngb(i, [-s[0], -s[1], -s[2]]);
                     let rr = lf[j].by_key.get(&back).map(|l| &l[0]);
@@ -325,13 +349,13 @@ pub fn eval_c03(st: &State) -> Eval {
                 for (k, list) in &lf[i].by_key {
                     if let FaceKey::Ngb(j, [0, 0, 0]) = *k {
                         let a = list[0].area;
-                        if i < j && a > 4. * (t.neg_area + t.pos * 8. * t.l.powi((st.dim as i32 - 2).max(0))) {
+                        if i < j && a > 4. * (t.neg_area + pos_for(&t, sigma_all(&sig)) * 8. * t.l.powi((st.dim as i32 - 2).max(0))) {
                             shared_pairs.push((i, j, a));
                         }
                     }
                 }
             }
-            if !(flux.length() <= 1e-9 * flux_scale + 16. * t.pos * t.l.powi((st.dim as i32 - 2).max(0)) * (n * n) as f64) {
+            if !(flux.length() <= 1e-9 * flux_scale + 16. * pos_for(&t, sigma_all(&sig)) * t.l.powi((st.dim as i32 - 2).max(0)) * (n * n) as f64) {
                 e.issue("flux-cancellation", &case, format!("sum over all interior faces of area*outward normal = {} (scale {:e})", fmt_vec(flux), flux_scale), replay_text(check, st, &[]));
             }
         }
@@ -381,7 +405,8 @@ pub fn eval_c03(st: &State) -> Eval {
                         }
                     }
                 }
-                let atol_of = |a: f64| t.pos * 8. * t.l.powi((st.dim as i32 - 2).max(0)) + 1e-9 * a.abs();
+                let pg = pos_for(&t, sigma_all(&sig));
+                let atol_of = |a: f64| pg * 8. * t.l.powi((st.dim as i32 - 2).max(0)) + 1e-9 * a.abs();
                 for ((a, b), list) in &pair_count {
                     let area = v.faces()[list[0]].area();
                     if list.len() > 1 {
@@ -434,7 +459,7 @@ pub fn eval_c03(st: &State) -> Eval {
                         }
                     }
                 }
-                if !(flux.length() <= 1e-9 * flux_scale + 16. * t.pos * t.l.powi((st.dim as i32 - 2).max(0)) * ((n * n) as f64 + 1.)) {
+                if !(flux.length() <= 1e-9 * flux_scale + 16. * pg * t.l.powi((st.dim as i32 - 2).max(0)) * ((n * n) as f64 + 1.)) {
                     e.issue("flux-cancellation(stored)", &case, format!("antisymmetric flux over stored periodic faces = {}", fmt_vec(flux)), replay_text(check, st, &extra));
                 }
                 // transition relation: ownership of faces not incident to the flipped cell is unchanged
@@ -491,6 +516,10 @@ pub fn eval_c04(st: &State) -> Eval {
     let x0 = exact_calls_thread();
     let oc = ocells(st);
     let mut h = Fnv::new();
+    let pg = match build_integrator(st, None) {
+        Ok(i) => pos_for(&t, sigma_all(&sigmas(&i, n))),
+        Err(_) => t.pos,
+    };
     let masks: Vec<Option<Vec<bool>>> = if n <= 3 {
         let mut m: Vec<Option<Vec<bool>>> = vec![None];
         m.extend(all_masks(n).into_iter().map(Some));
@@ -541,7 +570,8 @@ pub fn eval_c04(st: &State) -> Eval {
                     if f.area() > t.neg_area {
                         let mid = gl + 0.5 * dir;
                         let off = nrm.dot(f.centroid() - mid).abs();
-                        if !(off <= 16. * t.pos) {
+                        // signed triangles of the size of the cell cancel down to the face area
+                        if !(off <= 16. * pg * (1. + t.l.powi(st.dim as i32 - 1) / f.area())) {
                             e.issue("centroid-off-bisector", &case, format!("face {} ({}->{}): centroid {} is {:e} off the bisector plane", fi, l, r, fmt_vec(f.centroid()), off), rp());
                         }
                     }
@@ -566,7 +596,7 @@ pub fn eval_c04(st: &State) -> Eval {
                                 let r9 = wall_through_generator(st, l, wk, &t);
                                 if f.area() > t.neg_area && !r9 {
                                     let off = (comp(f.centroid(), ax) - coord).abs();
-                                    if !(off <= 16. * t.pos) {
+                                    if !(off <= 16. * pg * (1. + t.l.powi(st.dim as i32 - 1) / f.area())) {
                                         e.issue("centroid-off-wall", &case, format!("face {}: centroid {} is {:e} off wall {}", fi, fmt_vec(f.centroid()), off, wk), rp());
                                     }
                                 }
@@ -602,7 +632,7 @@ pub fn eval_c04(st: &State) -> Eval {
                     if let Some(FaceKey::Wall(wk)) = wall_key_from_outward(f.normal()) {
                         if wall_through_generator(st, i, wk, &t) {
                             if let Some(of) = oc[i].faces.iter().find(|of| of.key == FaceKey::Wall(wk)) {
-                                let ft = face_tol(&t, of, t.pos);
+                                let ft = face_tol(&t, of, pg);
                                 if !((area - of.area).abs() <= ft.area) || (ft.compare_centroid && !(cen.distance(of.centroid) <= ft.centroid)) {
                                     e.excuse(R9_CLAUSE);
                                     used_oracle = true;
@@ -621,14 +651,14 @@ pub fn eval_c04(st: &State) -> Eval {
             }
             // faces on the right side of shifted faces are not listed by the right cell: the cell's own
             // list is complete only if it owns all its shifted faces, which the ownership rule guarantees
-            let ctol = 1e-9 * scale + 16. * t.pos * t.l.powi((st.dim as i32 - 2).max(0)) * (c.face_count() as f64 + 1.);
+            let ctol = 1e-9 * scale + 16. * pg * t.l.powi((st.dim as i32 - 2).max(0)) * (c.face_count() as f64 + 1.);
             // in the with-masks case a cell may miss faces owned by an active lower-index neighbour? no:
             // those are listed via the right link. So the list is complete.
             if !(closure.length() <= ctol) {
                 e.issue("closure", &case, format!("cell {}: sum of area*outward normal = {} (tol {:e})", i, fmt_vec(closure), ctol), rp());
             }
             let vol = c.volume();
-            let vtol = cell_tol(&t, &oc[i], 1.0).vol * 4. + 1e-9 * vol.abs();
+            let vtol = (pg * oc[i].surface + 1e-12 * oc[i].volume.abs()) * 4. + 1e-9 * vol.abs();
             if !((div / d - vol).abs() <= vtol) {
                 e.issue(
                     "divergence",
